@@ -1,13 +1,48 @@
 def fill(chk, NA):
+    A12 = ("Assumes A1 (a token behaves like any [a-z]+ word of its length except through len) and A2 (sym_len == len on instantiation), both validated on sampled paths of every case by replaying "
+           "the path's z3 model on unpatched code in a fresh interpreter; z3 and Marko (as the reader) are trusted. Everything outside the listed skeleton families is outside the claim.")
+    chk("C01", "model_checking",
+        "Bounded symbolic model checking of the whole real pipeline: for every document skeleton (paragraph with a block-start / atomic word at every position in every container, hard breaks, "
+        "tag newlines, ~50 block-level skeletons) all word lengths and the width are unbounded z3 integers; every feasible break layout is a path and shape(out)==shape(in) is checked on each. "
+        "This is the property's own dependence ('whether a hazard lands at a line start depends on the text before it and the width') handed to the solver.",
+        A12, "dynamic symbolic execution (symlen over z3 LIA) of reformat_text + per-path re-parse + model replay", "DESIGN.md §3 C01")
+    chk("C02", "model_checking",
+        "Same engine; reformat_text is run twice on every feasible path (pass 2 on pass 1's output under the same path condition): z3 proves pass 2 cannot re-break or yields lengths/width that do. "
+        "Skeleton families x both modes x option sets (covering array quick / all 24 thorough) + plaintext + frontmatter + typography.",
+        A12, "dynamic symbolic execution of two composed runs per path; byte equality per path", "DESIGN.md §3 C02")
+    chk("C03", "model_checking",
+        "Relayout: two sources with the same words and different gaps are formatted on joint paths; history: TWO symbolic widths W1, W2 and both modes, format_W2(format_W1(d)) == format_W2(d) on every joint path.",
+        A12 + " Relayouts are seeded samples of the gap space (2 quick / 4 thorough per skeleton).", "dynamic symbolic execution of 2-3 runs on joint paths with two symbolic widths", "DESIGN.md §3 C03")
     chk("C05", "model_checking",
         "Bounded symbolic model checking of the real wrapping code: every word length, the width, initial column, indent lengths and min_line_len are unbounded z3 integers; "
         "every feasible break layout of each enumerated paragraph skeleton is explored and the width-bound / maximality / losslessness / no-wrap obligations are decided by z3 per path; "
-        "the paths provably partition the whole integer space (completeness query). Right level because the property is exactly about coincidences of lengths and width.",
-        "Bound = skeleton family (<=5 words quick / <=7 thorough, listed word kinds, contexts, entry points). Assumes A1 content uniformity and A2 sym_len==len, both validated per sampled path by replay on unpatched code; z3 is trusted. len_fn other than len is outside the claim.",
-        "dynamic symbolic execution (own engine over z3 LIA) of the real functions + per-path z3 validity queries + replay of models",
-        "DESIGN.md §3 C05")
+        "the paths provably partition the whole integer space (completeness query).",
+        A12 + " len_fn other than len is outside the claim.", "dynamic symbolic execution of the five public wrapping entry points and reformat_text + per-path z3 validity queries", "DESIGN.md §3 C05")
+    chk("C10", "model_checking",
+        "List and heading skeletons (structures enumerated) formatted under the three list-spacing modes / cleanups on-off on joint paths with lengths and width symbolic: outputs equal modulo blank lines, "
+        "re-parsed tightness per mode, cleanups == reference unbold of the parsed tree. The solver quantifies 'and nothing else changes, at any width'.",
+        A12, "dynamic symbolic execution of 2-3 runs per path + structural oracles on the re-parsed output", "DESIGN.md §3 C10")
+    chk("C11", "model_checking",
+        "reformat_text(semantic=True) on sentence-pattern skeletons: z3 decides per path that every break is justified (sentence end or width) and every sentence end breaks unless the line so far is < 20; "
+        "locality on joint paths of a document and an edited version.",
+        A12 + " Reference sentence-end notion: >=2 lowercase letters + .?! + optional closing quote/paren.", "dynamic symbolic execution with integer obligations on joint paths", "DESIGN.md §3 C11")
+    chk("C14", "fault_enumeration",
+        "Real reformat_file/reformat_files/cli.main + real strif on a real temp dir with every reachable FS primitive wrapped by a counting fault injector; the faulted operation index is an unbounded z3 Int, "
+        "fault mode / torn class / errno / nobackup / stale backup are solver-chosen; post-state invariant checked on every path. With ~15 operations per file this is enumeration done by the solver, labelled as such.",
+        "Stub contract: replace/rename atomic, writes may leave any prefix (abstracted to empty/half/complete), open('w') truncates, mkdir atomic; one fault per run; crash = BaseException unwinding (no finally blocks in the code under test rely on it).",
+        "symbolic fault schedule (z3 Int index + mode) over the real code on a real file system", "DESIGN.md §3 C14", engine="symlen+fs-injector")
+    chk("C15", "model_checking",
+        "API layer: formatter replaced by recording stubs (uninterpreted), width a z3 Int and all switches z3 Bools flowing through the real reformat_text/file/files; z3 decides captured argument == option. "
+        "CLI layer: flags chosen under solver forks (enumeration), real main() end to end, bytes compared with reformat_text.",
+        "Formatter treated as a function of its arguments in symbolic mode; replay uses no stubs (option-sensitive document, byte comparison). --width values concrete {absent,0,1,40,120}. `-o file` with one input file is unspecified by the property and not checked.",
+        "symbolic pass-through checking with uninterpreted formatter + enumerated argv", "DESIGN.md §3 C15")
+    chk("C16", "model_checking",
+        "Real merge_cli_with_config on a real Options record with z3 Int/Bool values and presence bits vs the three-level rule (per setting and pairwise); real main() with config files observed at the "
+        "reformat_files / FileResolver boundary; real find_config_file on a duck-typed path with z3 existence bits.",
+        "Integer values unbounded in merge; e2e uses fixed distinct constants; presence bits are enumerated by solver forks. Directories above the temp tree hold no config file.",
+        "symbolic values + solver-enumerated presence bits through the real merge/search code", "DESIGN.md §3 C16")
     pending = "check not built yet in this revision (work in progress; see DESIGN.md §3 for the plan)"
-    for p in ["C01","C02","C03","C04","C06","C07","C08","C09","C10","C11","C12","C14","C15","C16","C17","C18"]:
+    for p in ["C04","C06","C07","C08","C09","C12","C17","C18"]:
         NA[p] = pending
     NA["C13"] = ("quantifies over thread interleavings and process histories of CPython interpreter state; no available solver engine models a scheduler or a symbolic Python heap, "
                  "and a bounded history with symbolic word lengths would be a concrete test wearing a solver (DESIGN.md §3 C13)")
